@@ -51,7 +51,7 @@ def hx_reader(hx, inputs):
             break
         m = re.search(r"HX-TIMEOUT index=(\d+)", r.stderr) if r.returncode == 3 else None
         if not m:
-            raise core.ToolError("hx reader failed: " + r.stderr[-2000:])
+            raise core.ToolError(f"hx reader failed rc={r.returncode} after {len(ev)} events: " + r.stderr[-2000:])
         idx = int(m.group(1))
         x = inputs[idx]
         ev.append({"ev": "rdecode", "bytes": x["bytes"], "script": x.get("script", []), "calls": [], "consumed": 0, "out": {"ok": 2}, "outcome": "panic",
